@@ -88,6 +88,31 @@ def handle (op : String) (j : Json) : Option Json :=
           ("final", stateJson old new ((fs0.run ops).content .data)),
           ("todo", Json.arr (runs.map (fun (r : Nat) => Json.arr #[Json.num r,
               natArr (todo st.loaded ⟨r, 0, invocations, 1⟩)])).toArray)])
+  | "c14.multi" => do
+      -- several data files rewritten by one -r: operation sequence and the contents of all
+      -- files after every prefix
+      let olds ← (← getArr? j "olds").toList.mapM asStr?
+      let cap ← getNat? j "cap"
+      let rws ← (← getArr? j "rewrites").toList.mapM (fun e => do
+        let a ← asArr? e
+        let i ← asNat? (← a[0]?)
+        let ls ← (← asArr? (← a[1]?)).toList.mapM asStr?
+        pure (i, ls.map String.toList))
+      let oldsT := olds.map String.toList
+      let ops := multiOps rws
+      let states := mcrashStates (MFS.start oldsT cap) ops
+      let newOf (jx : Nat) : Option Text := (rws.find? (fun p => p.1 == jx)).map (fun p => p.2.flatten)
+      let tag (jx : Nat) (c : Option Text) : Json :=
+        match c with
+        | none => Json.str "absent"
+        | some t => if some t = oldsT[jx]? then Json.str "old" else if some t = newOf jx then Json.str "new"
+                    else Json.mkObj [("other", Json.str (String.ofList t))]
+      let opName : MOp → String
+        | .create => "create:tmp" | .write _ => "write" | .close => "close"
+        | .replace i => s!"rename:tmp:data{i}"
+      pure (Json.mkObj [
+        ("ops", Json.arr (ops.map (fun o => Json.str (opName o))).toArray),
+        ("states", Json.arr (states.map (fun st => Json.arr (st.zipIdx.map (fun p => tag p.2 p.1)).toArray)).toArray)])
   | "c14.clean" => do
       let text ← getStr? j "text"
       let fs := (FS.start text.toList 8192).run (cleanOps [.data])
